@@ -307,9 +307,13 @@ func (z *ZodUnknown[T, R]) CloneFrom(source any) {
 // extractUnknownValue extracts base type T from constraint type R.
 func extractUnknownValue[T any, R any](value R) T {
 	if v, ok := any(value).(*any); ok && v != nil {
-		return any(*v).(T) //nolint:unconvert // Required for generic type constraint conversion
+		r, _ := any(*v).(T) //nolint:unconvert // Required for generic type constraint conversion.
+		return r
 	}
-	return any(value).(T)
+	// A nil value (a nil input the schema accepts) has no dynamic type: hand on the zero T
+	// instead of panicking in the assertion.
+	r, _ := any(value).(T)
+	return r
 }
 
 // newZodUnknownFromDef constructs a new ZodUnknown from the given definition.
